@@ -2,7 +2,9 @@
    model interpreter and judged by the oracle c19_ok).  Used by the ..._refuted / ..._nonvacuous theorems.
    The same histories are replayed on the real code by the suite (known_findings.d/C19.json, corpus/C19). *)
 From Coq Require Import NArith ZArith List Bool String Ascii.
-From F8 Require Import Sess.Bytes Sess.Msg Sess.Persist Sess.Session Sess.SimpleCodec Sess.Wire C19.Run19 C19.Spec_C19.
+From F8 Require Import Sess.Bytes Sess.Msg Sess.Persist Sess.Session Sess.SimpleCodec Sess.Wire C19.Run19 C19.Spec_C19
+  C19.CodecDecode.
+From F8 Require Codec.Meta Codec.Render Codec.Example.
 Import ListNotations.
 Local Open Scope string_scope.
 Local Open Scope list_scope.
@@ -14,6 +16,13 @@ Fixpoint b (s : string) : list N :=
 Definition tok (kv : string * string) : list N := (b (fst kv) ++ [61] ++ b (snd kv) ++ [1]).
 
 (* a complete message: 8, 9 (computed), the tokens, 10 (computed) *)
+Definition mk_rawb (fields : list (list N * list N)) : list N :=
+  let body := flat_map (fun kv => fst kv ++ [61] ++ snd kv ++ [1]) fields in
+  let pre := (b "8=FIX.4.2" ++ [1] ++ b "9=" ++ dec (N.of_nat (List.length body)) ++ [1]) in
+  let chk := bytesum (pre ++ body) mod 256 in
+  (pre ++ body ++ b "10=" ++ pad 3 chk ++ [1]).
+Definition bb (kv : string * string) : list N * list N := (b (fst kv), b (snd kv)).
+
 Definition mk_raw (fields : list (string * string)) : list N :=
   let body := flat_map tok fields in
   let pre := (b "8=FIX.4.2" ++ [1] ++ b "9=" ++ dec (N.of_nat (List.length body)) ++ [1]) in
@@ -102,3 +111,50 @@ Definition s_cont : sess := sess_after [start_I; OIn [logon "1"]].              
 Definition s_cont3 : sess := sess_after [start_I; OIn [logon "1"]; OIn [order_msg "2" []]]. (* continuous, expects 3 *)
 Definition s_pending : sess := sess_after [start_I; OIn [logon "1"]; OIn [order_msg "5" []]]. (* resend_request_sent, expects 3 *)
 Definition raw_xxx : list N := mk_raw ([("35","D");("49","XXX");("56","CLI");("34","2");("52",T)] ++ order).
+
+(* ---- after the repair of F24: what still escapes ------------------------------------------------------------------
+   A data field in front of MsgSeqNum whose content contains SOH "34=": SecureDataLen 90 = 6, SecureData 91 =
+   X SOH 3 4 = 2.  Decoding such a message needs the real decoder's Length/data pairing: the witness uses the Codec
+   group's model of Message::factory on a small context with the same positions as sc0. *)
+Definition tr := F8.Codec.Example.tr.
+Definition ctx0 : F8.Codec.Meta.ctx :=
+  let hdr := F8.Codec.Meta.GM
+    [ tr 8 15 1 false false true true; tr 9 1 2 false false true true; tr 35 15 3 false false false true;
+      tr 49 15 4 true false false false; tr 56 15 5 true false false false; tr 115 15 6 false false false false;
+      tr 90 2 8 false false false false; tr 91 28 9 false false false false; tr 34 1 10 true false false false;
+      tr 50 15 11 false false false false; tr 43 8 19 false false false false; tr 52 22 21 true false false false;
+      tr 122 22 22 false false false false ] [] true in
+  let gm l := F8.Codec.Meta.GM l [] true in
+  F8.Codec.Meta.mkCtx
+    [ (1,15); (7,1); (8,15); (9,1); (10,15); (11,15); (16,1); (21,7); (34,1); (35,15); (36,1); (38,10); (40,7); (43,8);
+      (44,11); (45,1); (49,15); (50,15); (52,22); (54,7); (55,15); (56,15); (58,15); (60,22); (89,28); (90,2); (91,28);
+      (93,2); (98,1); (108,1); (112,15); (115,15); (122,22); (123,8); (141,8); (371,1); (372,15); (373,1) ]
+    [ F8.Codec.Meta.mkMD (b "0") true (gm [tr 112 15 1 false false false false]);
+      F8.Codec.Meta.mkMD (b "1") true (gm [tr 112 15 1 true false false false]);
+      F8.Codec.Meta.mkMD (b "2") true (gm [tr 7 1 1 true false false false; tr 16 1 2 true false false false]);
+      F8.Codec.Meta.mkMD (b "3") true (gm [tr 45 1 1 true false false false; tr 58 15 5 false false false false;
+                                           tr 371 1 2 false false false false; tr 372 15 3 false false false false;
+                                           tr 373 1 4 false false false false]);
+      F8.Codec.Meta.mkMD (b "4") true (gm [tr 36 1 2 true false false false; tr 123 8 1 false false false false]);
+      F8.Codec.Meta.mkMD (b "5") true (gm [tr 58 15 1 false false false false]);
+      F8.Codec.Meta.mkMD (b "A") true (gm [tr 98 1 1 true false false false; tr 108 1 2 true false false false;
+                                           tr 141 8 5 false false false false]);
+      F8.Codec.Meta.mkMD (b "D") false (gm [tr 1 15 6 false false false false; tr 11 15 3 true false false false;
+                                            tr 21 7 10 true false false false; tr 38 10 43 false false false false;
+                                            tr 40 7 45 true false false false; tr 44 11 46 false false false false;
+                                            tr 54 7 40 true false false false; tr 55 15 20 true false false false;
+                                            tr 58 15 63 false false false false; tr 60 22 42 true false false false]) ]
+    hdr F8.Codec.Example.ex_trailer
+    [ (1, (8, b "FIX.4.2")); (2, (9, b "0")); (3, (35, [])) ]
+    [ (3, (10, [])) ]
+    (b "FIX.4.2")
+    F8.Codec.Render.render_default.
+
+Definition dec0c := codec_decode sc0 ctx0 (mkFl [] [] []).
+Definition lens0 : list N := [90].
+
+Definition raw_d34 : list N :=
+  mk_rawb ([bb ("35","D"); bb ("49","SRV"); bb ("56","CLI"); bb ("90","6"); (b "91", b "X" ++ [1] ++ b "34=2");
+            bb ("34","7"); bb ("52",T)] ++ map bb order).
+Definition ops_d34 : list op := [start_I; OIn [logon "1"]; OIn [raw_d34]].
+Definition run0c (ops : list op) : trace := run_history19 sc0 dec0c fl0 ops.
